@@ -99,6 +99,9 @@ def rules(t):
         r.site(s)
         g = list(t.find_cmp(a, lambda x: fmt(strip(x)) == "P2(sequence)", lambda y: t.is_field(y, "most_recent_sequence"), None))
         implies_ge = any((op in ("Gt", "Ge") and t.edge_dominates(a, te, s.bb)) or (op in ("Lt", "Le") and t.edge_dominates(a, fe, s.bb)) for br, op, te, fe in g)
+        # any spelling of the same fact (`match sequence.cmp(&newest) { Greater => .. }`, negations, materialised booleans)
+        is_seq = lambda x: fmt(strip(x)) == "P2(sequence)"; is_mr = lambda y: t.is_field(y, "most_recent_sequence") or fmt(strip(y)).endswith(".most_recent_sequence")
+        implies_ge = implies_ge or any(t.edge_dominates(a, e, s.bb) for rel_ in ("Gt", "Ge") for e, _br in rel_edges(t, a, is_seq, is_mr, rel_))
         is_max = isinstance(strip(t.stored(s)), tuple) and strip(t.stored(s))[0] == "call" and method_of(strip(t.stored(s))[1]) == "max" and "most_recent_sequence" in fmt(t.stored(s)) and "P2(sequence)" in fmt(t.stored(s))
         if is_max: continue
         if fmt(strip(t.stored(s))) != "P2(sequence)" or not implies_ge: r.bad("recent", s, "most_recent_sequence can decrease (store not behind a test implying sequence >= most_recent_sequence)")
